@@ -1543,6 +1543,114 @@ pub fn loadself_directed_programs() -> Vec<(&'static str, Program)> {
     v
 }
 
+// ---------------------------------------------------------------------------------------------------
+// a block precondition invalidated by a LOAD (control flow propagation, `get_block_precondition_after_defs`)
+//
+// A non-entry block entered only under the condition `c` (or only under `¬c`) overwrites a variable of `c`, then
+// jumps (directly or through an empty forwarding block) to a def-less block branching on the same condition. The
+// entry block stores the opposite value into the cell that is loaded, so the precondition is false after the defs.
+
+#[derive(Clone, Copy)]
+pub struct CfPre {
+    /// 0: flag register, 1: `R s< 0`, 2: `R != 0`
+    pub kind: u8,
+    /// the block is entered by the conditional jump (`c` holds) / by the fall-through (`¬c` holds)
+    pub positive: bool,
+    /// number of empty forwarding blocks between the block and the branching block
+    pub fwd: usize,
+    /// overwrite by a load (otherwise by an assignment: the control shape)
+    pub load: bool,
+    /// the block ends with a conditional jump and a fall-through (both lead on)
+    pub two_jumps: bool,
+}
+
+pub fn cf_precondition_function(p: CfPre, flag: &str, reg: &str, idx: usize) -> Term<Sub> {
+    use BinOpType::*;
+    let fname = format!("sub_{}", idx);
+    let b = |n: &str| format!("s{}_{}", idx, n);
+    let ret = |t: &str| j_return(t, e_const(0x401000, 8));
+    let slot = e_bin(IntSub, e_var("RSP", 8), e_const(0x18, 8));
+    let (cond, target, opposite): (Expression, Variable, Expression) = match p.kind {
+        0 => (e_var(flag, 1), var(flag, 1), e_un(UnOpType::BoolNegate, e_var(flag, 1))),
+        1 => (
+            e_bin(IntSLess, e_var(reg, 8), e_const(0, 8)),
+            var(reg, 8),
+            e_bin(IntXOr, e_var(reg, 8), e_const(0x8000000000000000, 8)),
+        ),
+        _ => (
+            e_bin(IntNotEqual, e_var(reg, 8), e_const(0, 8)),
+            var(reg, 8),
+            e_cast(CastOpType::IntZExt, 8, e_bin(IntEqual, e_var(reg, 8), e_const(0, 8))),
+        ),
+    };
+    let other_flag = if flag == "CF" { "SF" } else { "CF" };
+    let mut blocks = Vec::new();
+    // entry: remember the opposite value, branch on the condition
+    let (if_t, else_t) = if p.positive { (b("a"), b("other")) } else { (b("other"), b("a")) };
+    blocks.push(blk(
+        &b("entry"),
+        vec![d_store(&format!("{}_d0", b("entry")), slot.clone(), opposite.clone())],
+        vec![j_cbranch(&format!("{}_j0", b("entry")), &if_t, cond.clone()), j_branch(&format!("{}_j1", b("entry")), &else_t)],
+    ));
+    // the block with the precondition: overwrite the variable of the condition
+    let next = if p.fwd > 0 { b("f0") } else { b("c") };
+    let over = if p.load {
+        d_load(&format!("{}_d0", b("a")), target.clone(), slot.clone())
+    } else {
+        d_assign(&format!("{}_d0", b("a")), target.clone(), opposite)
+    };
+    let a_jmps = if p.two_jumps {
+        vec![j_cbranch(&format!("{}_j0", b("a")), &next, e_var(other_flag, 1)), j_branch(&format!("{}_j1", b("a")), &next)]
+    } else {
+        vec![j_branch(&format!("{}_j0", b("a")), &next)]
+    };
+    blocks.push(blk(&b("a"), vec![over], a_jmps));
+    for k in 0..p.fwd {
+        let nxt = if k + 1 < p.fwd { b(&format!("f{}", k + 1)) } else { b("c") };
+        blocks.push(blk(&b(&format!("f{}", k)), vec![], vec![j_branch(&format!("{}_j0", b(&format!("f{}", k))), &nxt)]));
+    }
+    // the def-less block branching on the same condition
+    blocks.push(blk(&b("c"), vec![], vec![j_cbranch(&format!("{}_j0", b("c")), &b("t"), cond), j_branch(&format!("{}_j1", b("c")), &b("e"))]));
+    for (n, k) in [("t", 1u64), ("e", 2), ("other", 3)] {
+        blocks.push(blk(&b(n), vec![d_assign(&format!("{}_d0", b(n)), var("RAX", 8), e_const(k, 8))], vec![ret(&format!("{}_j0", b(n)))]));
+    }
+    sub(&fname, &fname, blocks, Some("__stdcall"))
+}
+
+pub fn gen_cfpre_function(rng: &mut Rng, idx: usize, counts: &mut BTreeMap<String, u64>) -> Term<Sub> {
+    let p = CfPre {
+        kind: rng.below(3) as u8,
+        positive: rng.chance(1, 2),
+        fwd: rng.below(3) as usize,
+        load: !rng.chance(1, 4),
+        two_jumps: rng.chance(1, 4),
+    };
+    *counts.entry(format!("cfpre:{}", if p.load { "load" } else { "assign" })).or_insert(0) += 1;
+    let flag = *rng.pick(&FLAGS);
+    let reg = *rng.pick(&["RBX", "RCX", "RDX", "RSI", "RDI", "RBP", "R8"]);
+    cf_precondition_function(p, flag, reg, idx)
+}
+
+/// directed programs for the precondition shape (always run by h_c10, and kept in corpus/C10)
+pub fn cfpre_directed_programs() -> Vec<(&'static str, Program)> {
+    let ext = || vec![extern_symbol("ext_a", "ext_a", vec![], vec![], false)];
+    let one = |p: CfPre, flag: &str, reg: &str| program(vec![cf_precondition_function(p, flag, reg, 0)], ext(), vec![tid("sub_0")]);
+    let base = CfPre { kind: 0, positive: true, fwd: 0, load: true, two_jumps: false };
+    vec![
+        // the demo of the seeded change C10-f: `ZF := load`, jump to the block branching on ZF
+        ("cf-load-overwrites-condition", one(base, "ZF", "RBX")),
+        ("cf-load-flag-negative-forward", one(CfPre { positive: false, fwd: 1, ..base }, "SF", "RBX")),
+        ("cf-load-flag-two-jumps", one(CfPre { two_jumps: true, ..base }, "CF", "RBX")),
+        ("cf-load-reg-sless", one(CfPre { kind: 1, fwd: 1, ..base }, "ZF", "RCX")),
+        ("cf-load-reg-sless-negative", one(CfPre { kind: 1, positive: false, ..base }, "ZF", "RDI")),
+        ("cf-load-reg-nonzero", one(CfPre { kind: 2, ..base }, "ZF", "RSI")),
+        ("cf-load-reg-zero-forward2", one(CfPre { kind: 2, positive: false, fwd: 2, ..base }, "ZF", "RDX")),
+        // controls: the same with an assignment
+        ("cf-assign-flag-control", one(CfPre { load: false, ..base }, "ZF", "RBX")),
+        ("cf-assign-reg-control", one(CfPre { kind: 1, load: false, fwd: 1, ..base }, "ZF", "RCX")),
+    ]
+}
+
 /// directed programs for the assignment-cycle shape (always run by h_c10, and kept in corpus/C10)
 pub fn cycle_directed_programs() -> Vec<(&'static str, Program)> {
     use BinOpType::*;
@@ -1648,6 +1756,12 @@ pub fn gen_program(rng: &mut Rng, flavor: Flavor, counts: &mut BTreeMap<String, 
         if nsubs == 2 {
             subs.push(gen_function(rng, 1, &shape, flavor, counts));
         }
+        let externs = vec![extern_symbol("ext_a", "ext_a", vec![], vec![], false), extern_symbol("ext_b", "ext_b", vec![], vec![], false)];
+        return program(subs, externs, vec![tid("sub_0")]);
+    }
+    if flavor == Flavor::Behaviour && rng.chance(1, 14) {
+        // a block precondition invalidated by a load / an assignment
+        let subs = vec![gen_cfpre_function(rng, 0, counts)];
         let externs = vec![extern_symbol("ext_a", "ext_a", vec![], vec![], false), extern_symbol("ext_b", "ext_b", vec![], vec![], false)];
         return program(subs, externs, vec![tid("sub_0")]);
     }
@@ -1893,6 +2007,7 @@ pub fn crafted_programs() -> Vec<(&'static str, Program)> {
     v.extend(cycle_directed_programs());
     v.extend(castnest_directed_programs());
     v.extend(loadself_directed_programs());
+    v.extend(cfpre_directed_programs());
     v.push(sa(
         "sa-align-8",
         vec![
